@@ -11,6 +11,7 @@ import Golib.Gen.C14
 import Golib.HLL.SrcBridge
 import Golib.HLL.SrcProg
 import Golib.HLL.SrcHash
+import Golib.HLL.SrcObj
 
 namespace C14Gen
 open HLL
@@ -210,5 +211,39 @@ theorem gen_murmur_meaning (ρ : Env) (data : Nat) (h0 : ρ.args.getD 0 0 = data
   refine ⟨?_, murmurLong_lt data, ?_⟩
   · rw [gen_murmur.1]; exact murmurLong_bridge ρ data h0
   · intro hd hf; rw [gen_murmur.2]; exact murmur32_bridge ρ data h0 hd hf
+
+/-- the transcribed statement lists of `HyperLogLog.Merge` and `HyperLogLog.AddAll` -/
+theorem gen_merge_addAll_programs :
+    Gen.C14.mergeProg = Src.mergeProg ∧ Gen.C14.addAllProg = Src.addAllProg := by
+  refine ⟨by decide, by decide⟩
+
+open HLL.Src in
+/-- **interpreted**: the transcribed `Merge` returns the model's `mergeAll` of receiver and
+    arguments and writes neither the receiver nor any argument (only its fresh local) -/
+theorem gen_merge_obj_meaning (σ : MState) (hr : σ.recv.size = wordCount (2 ^ σ.p))
+    (ha : ∀ b ∈ σ.args, b.size = wordCount (2 ^ σ.p)) :
+    ∃ τ, MStep.sem Gen.C14.mergeProg σ = some (some (mergeAll σ.p σ.recv σ.args), τ) ∧
+      τ.recv = σ.recv ∧ τ.args = σ.args ∧ τ.p = σ.p := by
+  rw [gen_merge_addAll_programs.1]; exact merge_bridge_obj σ hr ha
+
+open HLL.Src in
+/-- **interpreted**: the transcribed `AddAll` panics exactly when the sizes differ, otherwise turns
+    the receiver's words into `merge recv other` and touches nothing else -/
+theorem gen_addAll_obj_meaning (σ : MState) (b : Array Nat) (hb : σ.args = [b]) :
+    MStep.sem Gen.C14.addAllProg σ =
+      if σ.recv.size = b.size then some (none, { σ with recv := merge σ.recv b }) else none := by
+  rw [gen_merge_addAll_programs.2]; exact addAll_bridge_obj σ b hb
+
+/-! non-vacuity of the interpreted obligations: the evaluators compute on concrete environments -/
+example : Gen.C14.get.eval ⟨[9], fun _ i => if i = 1 then 229376 else 0, fun _ => 0, fun _ _ => 0, fun _ => 0⟩ = 7 := by
+  decide +kernel
+example : Gen.C14.sizeForCount.eval ⟨[193], fun _ _ => 0, fun _ => 0, fun _ x => x / 6, fun _ => 0⟩ = 32 := by
+  decide +kernel
+example : Gen.C14.murmurLong.eval ⟨[1], fun _ _ => 0, fun _ => 0, fun _ _ => 0, fun _ => 0⟩ = 1527037976 := by
+  decide +kernel
+example : (HLL.Src.MStep.sem Gen.C14.addAllProg ⟨4, #[1, 0, 0], [#[32, 0, 0]], fun _ => #[]⟩).map
+    (fun r => r.2.recv) = some #[33, 0, 0] := by decide +kernel
+example : HLL.Src.MStep.sem Gen.C14.addAllProg ⟨4, #[1, 0, 0], [#[32, 0]], fun _ => #[]⟩ = none := by
+  decide +kernel
 
 end C14Gen
